@@ -386,6 +386,30 @@ example :
       [.entries [(["Query"], some (.str, .str "hello"))], .entries [(["Cfg", "Level"], some (.int, .int 3))]]).map concatIn
       = .ok (.val exAssembled) := by decide
 
+/-- a string arriving in two pieces (`Query` = "hel" then "lo", in different input chunks): the
+    chunks of the node input concatenate to the non-streaming input -/
+example :
+    (assembleStaticStream Expected.C15.chain exReq exStatic
+      [.entries [(["Query"], some (.str, .str "hel"))], .entries [(["Cfg", "Level"], some (.int, .int 3))],
+       .entries [(["Query"], some (.str, .str "lo"))]]).map concatIn
+      = .ok (.val exAssembled) := by decide
+
+/-- the hypotheses of `static_handler_commutes` are satisfiable (two incoming chunks) -/
+example : concatIn ([[exMapped.head!], exMapped.tail].map NodeIn.entries) = .entries exMapped ∧
+    dupKey exMapped exStatic = false ∧ exStatic.Pairwise (fun a b => a.1 ≠ b.1) := by decide
+
+/-- every handler of the chain of this node commutes with concatenation along the run on these
+    chunks (the hypothesis of `chain_twins_agree_along`) -/
+example : CommutesAlong concatIn (nodeHandlers exReq exStatic)
+    [.entries [(["Query"], some (.str, .str "hel"))], .entries [(["Cfg", "Level"], some (.int, .int 3))],
+     .entries [(["Query"], some (.str, .str "lo"))]] := by
+  refine ⟨by decide, fun cs' h => ?_⟩
+  have : cs' = [.entries [(["Query"], some (.str, .str "hel"))], .entries [(["Cfg", "Level"], some (.int, .int 3))],
+     .entries [(["Query"], some (.str, .str "lo"))], .entries exStatic] := by
+    simp [staticHandler, NodeIn.isEntries] at h; exact h.symm
+  subst this
+  exact ⟨by decide, fun _ _ => trivial⟩
+
 /-- If the stream twin left the loop after the first handler (`return v.transform(…)`), the node
     would be handed the un-converted `map[string]any` chunks in streaming execution while
     non-streaming execution still hands it the typed input: the twins disagree. -/
